@@ -125,6 +125,7 @@ type nodeWorld struct {
 	keyRng   *prng
 	msgSeq   int
 	sent     map[string]*pb.Message // messages sent by fakes, by id
+	sentBy   map[string]map[peer.ID]bool
 	extraOps map[string]func(it Item)
 
 	onFakePub func(fp *fakePeer, m *pb.Message)
@@ -190,7 +191,7 @@ func gsParamsFromPlan(p *Plan) GossipSubParams {
 
 func newNodeWorld(s *sim) *nodeWorld {
 	p := s.plan
-	w := &nodeWorld{s: s, plan: p, fakes: map[int]*fakePeer{}, appScore: map[peer.ID]float64{}, sent: map[string]*pb.Message{}, extraOps: map[string]func(Item){}, localMids: map[string]string{}, localDelivered: map[string]int{}, lastDisconnect: map[peer.ID]time.Duration{}, streamsGoneAt: map[peer.ID]time.Duration{}}
+	w := &nodeWorld{s: s, plan: p, fakes: map[int]*fakePeer{}, appScore: map[peer.ID]float64{}, sent: map[string]*pb.Message{}, sentBy: map[string]map[peer.ID]bool{}, extraOps: map[string]func(Item){}, localMids: map[string]string{}, localDelivered: map[string]int{}, lastDisconnect: map[peer.ID]time.Duration{}, streamsGoneAt: map[peer.ID]time.Duration{}}
 	w.keyRng = newPrng(p.Seed, "keys")
 	nt := p.ki("ntopics", 1)
 	for i := 0; i < nt; i++ {
@@ -419,6 +420,52 @@ func (w *nodeWorld) startNode(extra ...Option) error {
 	return nil
 }
 
+// restartNode: crash and restart of the node under test. The old instance's context is cancelled
+// and its connections are closed; a fresh instance with the same identity is created on a new
+// simulated host; scripted peers are re-attached to it (they have to reconnect explicitly).
+func (w *nodeWorld) restartNode(extra ...Option) {
+	s := w.s
+	old := w.n
+	for _, fp := range w.allFakes() {
+		if fp.connected() {
+			fp.disconnect()
+		}
+	}
+	s.run(s.now())
+	old.cancel()
+	s.settle()
+	router, opts := w.nodeOptions()
+	w.vals = nil
+	opts = append(opts, w.validatorOptions()...)
+	opts = append(opts, extra...)
+	kr := newPrng(w.plan.Seed, "nodekey")
+	delete(s.byID, old.h.id)
+	n, err := s.newNode(fmt.Sprintf("N%d", len(s.nodes)), genKey(kr, w.plan.ki("node_key_type", 0)), nodeCfg{router: router, opts: opts, rsize: w.plan.ki("rsize", 3)})
+	if err != nil {
+		s.violate("SIM", "setup", "SIM/setup", "node restart failed: %v", err)
+		return
+	}
+	w.n = n
+	for _, fp := range w.allFakes() {
+		fp.node = n
+		fp.in, fp.out, fp.conn = nil, nil, nil
+	}
+	s.settle()
+	w.registerTopicValidators()
+	// the application subscribes again and the peers come back
+	s.do("Subscribe t0 (after restart)", func() any { _, err := n.subscribe("t0", 1024); return err })
+	for _, fp := range w.allFakes() {
+		fp.connect(fp.dir)
+		fp.identify()
+		s.settle()
+		fp.openStream(fp.h.fakeProtos[len(fp.h.fakeProtos)-1])
+		s.settle()
+		fp.send(rpcSub("t0", true))
+		s.settle()
+	}
+	s.run(s.now() + 5*time.Millisecond)
+}
+
 // fake returns (creating on demand) scripted peer i. A: [idx, version, dir(0=in,1=out), keytype]
 func (w *nodeWorld) fake(i int) *fakePeer { return w.fakes[i] }
 
@@ -534,6 +581,7 @@ func (w *nodeWorld) exec1(it Item) {
 		if fp := w.fake(int(it.a(0))); fp != nil && fp.outAlive() {
 			m := fp.signedMsg(w.topicName(it.a(1)), w.mkData(int(it.a(2))))
 			w.sent[midOf(m)] = m
+			w.noteSentBy(fp, m)
 			if w.onFakePub != nil {
 				w.onFakePub(fp, m)
 			}
@@ -544,6 +592,7 @@ func (w *nodeWorld) exec1(it Item) {
 		if fp != nil && au != nil && fp.outAlive() {
 			m := au.signedMsg(w.topicName(it.a(1)), w.mkData(int(it.a(2))))
 			w.sent[midOf(m)] = m
+			w.noteSentBy(fp, m)
 			if w.onFakePub != nil {
 				w.onFakePub(fp, m)
 			}
@@ -553,6 +602,7 @@ func (w *nodeWorld) exec1(it Item) {
 		if fp := w.fake(int(it.a(0))); fp != nil && fp.outAlive() && len(w.sent) > 0 {
 			ids := w.sentIDs()
 			m := w.sent[ids[int(it.a(1))%len(ids)]]
+			w.noteSentBy(fp, m)
 			if w.onFakePub != nil {
 				w.onFakePub(fp, m)
 			}
@@ -716,6 +766,14 @@ func (w *nodeWorld) exec1(it Item) {
 		}
 	}
 	s.settle()
+}
+
+func (w *nodeWorld) noteSentBy(fp *fakePeer, m *pb.Message) {
+	id := midOf(m)
+	if w.sentBy[id] == nil {
+		w.sentBy[id] = map[peer.ID]bool{}
+	}
+	w.sentBy[id][fp.id] = true
 }
 
 func (w *nodeWorld) fsend(it Item, rpc *pb.RPC) {
